@@ -14,10 +14,49 @@ func TestC16(t *testing.T) {
 	run.Rule = "as C03, grammars with nullable rules over-weighted (nullable at start/middle/end template), every grammar compiled twice: with and without _onBounds; " +
 		"oracle = for every reduction of the validated reference tree in reduction order: user production -> action event then, iff the span is non-empty, one _onBounds(result, first, last token); generated list/optional nodes -> _onBounds with the value gathered so far and its span; never a call for an empty span; " +
 		"differential: tree, action log, result and number of tokens read are identical with and without _onBounds; for *! helpers only the value and begin<=end are compared (the statement does not say whether discarded elements count); " +
+		"second part (inputs with syntax errors, @error productions, half of the '@error TOKEN' actions hand the token back with recoverLookahead; sugar restricted to x? x* x+ so that the leaves of the built value are exactly the span): for every _onBounds call whose value holds no Error, begin / end are the value's first / last leaf token; " +
 		"non-trivial = sentence whose tree has a node with an empty child at its left or right edge; distinct by (grammar text, sentence)"
 	run.Assumptions = []string{"reference parser tree is self-certified"}
+	// replay files of the second part
+	type recReplay struct {
+		Kind string
+		Case *RecCase
+	}
+	oneRec := func(file string) bool {
+		var rr recReplay
+		if err := ev.LoadReplay(file, &rr); err != nil || rr.Kind != "recovery" || rr.Case == nil {
+			return false
+		}
+		ds, bad, err := evalRec(run, []*RecCase{rr.Case}, false)
+		if err != nil {
+			run.HarnessError("%v", err)
+		}
+		if ds[0] != "" {
+			rr.Case.Detail = ds[0]
+			if bad[0] != nil {
+				rr.Case.Inputs = [][]int{bad[0]}
+			}
+			run.Violation(ds[0], map[string]any{"Kind": "recovery", "Case": rr.Case})
+		}
+		return true
+	}
+	if run.Replay != "" {
+		if oneRec(run.Replay) {
+			return
+		}
+	} else {
+		for _, f := range run.CanonFiles() {
+			if oneRec(f) {
+				run.Class("replay-tier")
+			}
+		}
+		if run.Violations() > 0 {
+			return
+		}
+	}
 	treecheck.RunCheck(run, "C16", treecheck.Mode{OnBounds: true, Diff: true}, 240, 3000, true)
 	if run.Replay == "" && run.Violations() == 0 {
 		run.RequireClass("tree-with-empty-child-at-an-edge", 100)
+		recoveryPhase(run)
 	}
 }
